@@ -29,7 +29,7 @@ EXPLANATION = (
     "skeletons for every width and counts 0..40, write exactly ceil(count*width/8) bytes and read no output "
     "byte they have not written in the same call (a `|=` into an unzeroed tail would make the packed bytes "
     "depend on the buffer's previous contents). "
-    "(9) the dictionary encoders (int32, int64, byte arrays), executed abstractly on lists of a few hundred values with repeats, bucket-sharing values and prefix-related strings (allocator, growable buffers and the index encoder hooked), give every input the index of the slot holding its value and emit the distinct values once, in first-occurrence order, in page format (R34). (10) the varint writers and readers of rle.c, delta.c and endian.h are LEB128 for every value on either side of a 7-bit boundary (R38). Decides these clauses, not value equality of decode(encode(v)) for DELTA_*, dictionary or RLE.")
+    "(9) the dictionary encoders (int32, int64, byte arrays), executed abstractly on lists of a few hundred values with repeats, bucket-sharing values and prefix-related strings (allocator, growable buffers and the index encoder hooked), give every input the index of the slot holding its value and emit the distinct values once, in first-occurrence order, in page format (R34). (10) the varint writers and readers of rle.c, delta.c and endian.h are LEB128 for every value on either side of a 7-bit boundary (R38). (11) own output read back by execution: the DELTA_BINARY_PACKED encoders on sequences of every mini-block width class of their type (0, 1, odd, 8, 17, 24, 31, 32, and 33..64 for INT64; mixed widths in one block; partly filled blocks; wrap-around), then the decoder on exactly the bytes written; DELTA_LENGTH_BYTE_ARRAY and DELTA_BYTE_ARRAY on string lists with growing, shrinking, absent prefixes, repeats and empty strings (real inner DELTA coder, real output buffer, allocator hooked); PLAIN for all eight types through the real buffer code - the values come back and every byte is consumed; no specification is involved, so a layout that deviates on both sides alike is not reported here (that is C12). Decides these clauses on these grids, not value equality of decode(encode(v)) for every sequence, nor for the dictionary and RLE value paths beyond (1), (6), (7), (9).")
 
 RLE = "src/encoding/rle.c"
 PL = "src/encoding/plain.c"
@@ -102,6 +102,15 @@ def run(ctx):
     from ..rules import varint
     nvw, nvr = varint.check(ctx, files=("src/encoding/rle.c", "src/encoding/delta.c", "src/core/endian.h"))
     ctx.floor("C11 varint writers and readers", nvw + nvr, 6)
+    ctx.clause("C11.11 own output read back, by executing the encoder and then the decoder on exactly the bytes written: DELTA_BINARY_PACKED (every mini-block width "
+               "class of INT32 and INT64), DELTA_LENGTH_BYTE_ARRAY, DELTA_BYTE_ARRAY (shared, shrinking, absent prefixes, empty strings) and PLAIN (all eight types)")
+    from ..rules import encspec
+    ndc = encspec.check_delta_chain(ctx)
+    nsc = encspec.check_strings_chain(ctx)
+    npc = encspec.check_plain_chain(ctx)
+    ctx.floor("C11 DELTA sequences encoded and read back", ndc, 60)
+    ctx.floor("C11 string lists encoded and read back", nsc, 10)
+    ctx.floor("C11 PLAIN cases encoded and read back", npc, 20)
     ctx.clause("C11.9 the dictionary encoders give every input the index of the slot that holds its value; the dictionary is the distinct values in first-occurrence order")
     from ..rules import dictbuild
     ndb = dictbuild.check(ctx)
